@@ -244,6 +244,14 @@ func NewSecretFactoryWithMemcall(mc memcall.Interface) *SecretFactory { return &
 
 import "github.com/godaddy/asherah/go/appencryption"
 
+// CloseSessionFactory closes the session factory behind a service built by NewAppEncryption (overlay
+// only: the service itself offers no way to release it).
+func CloseSessionFactory(a *AppEncryption) {
+	if c, ok := a.NewStreamer().sessionFactory.(interface{ Close() error }); ok {
+		c.Close()
+	}
+}
+
 // NewAppEncryptionWithFactory builds the sidecar service over an existing session factory (overlay only).
 func NewAppEncryptionWithFactory(sf *appencryption.SessionFactory) *AppEncryption {
 	return &AppEncryption{
